@@ -20,6 +20,11 @@ def main():
         locale.setlocale(locale.LC_ALL, "")
     except locale.Error:
         pass
+    spy = None
+    if os.environ.get("PYAB_ENVSPY"):
+        from pyabverif import envspy as spy
+
+        spy.install()
     from pyabverif import model as M
     from pyabverif import sut
 
@@ -57,7 +62,7 @@ def main():
         else:
             out[pos] = list(o[:2])
     real_out.write(json.dumps({"hashseed": os.environ.get("PYTHONHASHSEED"), "locale": locale.setlocale(locale.LC_ALL),
-                               "cwd": _cwd(), "results": out}, ensure_ascii=True))
+                               "cwd": _cwd(), "results": out, "env_keys": spy.keys() if spy else []}, ensure_ascii=True))
     real_out.flush()
 
 
